@@ -183,3 +183,81 @@ package varmq
 //@   ensures [empty] w.pool.List.len == 0 && PoolOK(w)
 //@   loop 1: invariant [range] 0 <= rangeindex + 1 && rangeindex + 1 <= len($ranged) && PoolOK(w) && w.pool.List.len == len($ranged) - (rangeindex + 1)
 //@   loop 1: invariant [rest]  forall m int :: rangeindex + 1 <= m && m < len($ranged) ==> $ranged[m] == w.pool.List.$at[m - rangeindex]
+
+// ---------------------------------------------------------------- the dispatch step
+// processNextJob: at most one entry is taken from one queue. On an error nothing is dispatched and the in-flight count is unchanged;
+// otherwise the entry's job is either skipped because it is already closed (nothing dispatched) or marked processing, given the
+// acknowledgement id of this delivery and handed to exactly one pool node -- after all of that bookkeeping.
+//@ func worker.processNextJob
+//@   props C01 C02 C09 C10 C11 C12 C16
+//@   requires PoolOK(w) && QM(w) && w.curProcessing < MaxUint32
+//@   requires forall i int :: 0 <= i && i < len(w.queues.Manager.items) ==> $lenOf(w.queues.Manager.items[i]) >= 0 && w.queues.Manager.items[i] != nil
+//@   modifies w.queues.Manager.roundRobinIndex, $lenOf, $deq, w.curProcessing, $jstatus, $jackid, $jqueue, $alloc, $spawned["pool.Node.Serve"], w.$nodes, w.$dispatched,
+//@            linkedlist.Node.next, linkedlist.Node.prev, w.pool.List.len, w.pool.List.$in, key CH:sent, key CH:rcvd, key CHV:<
+//@   ensures [error]   result != nil ==> w.curProcessing == old(w.curProcessing) && w.$dispatched == old(w.$dispatched)
+//@   ensures [step]    result == nil ==> (w.$dispatched == old(w.$dispatched) + 1 && w.curProcessing == old(w.curProcessing) + 1)
+//@                                    || (w.$dispatched == old(w.$dispatched) && w.curProcessing == old(w.curProcessing))
+//@   ensures [taken]   result == nil ==> exists q ref :: $deq(q) == old($deq(q)) + 1
+//@   ensures [atmost]  forall q ref {$deq(q)} :: $deq(q) == old($deq(q)) || $deq(q) == old($deq(q)) + 1
+//@   ensures [single]  forall p ref, q ref {$deq(p), $deq(q)} :: $deq(p) != old($deq(p)) && $deq(q) != old($deq(q)) ==> p == q
+//@   ensures [pool]    PoolOK(w) && QM(w)
+//@   ensures [lens]    forall q ref {$lenOf(q)} :: $lenOf(q) == old($lenOf(q)) || ($lenOf(q) == old($lenOf(q)) - 1 && old($lenOf(q)) > 0)
+//@   ensures [queues]  w.queues.Manager.items == old(w.queues.Manager.items) && (forall i int :: 0 <= i && i < len(w.queues.Manager.items) ==> w.queues.Manager.items[i] == old(w.queues.Manager.items[i]))
+//@   assert [not-closed]      before call invoke.changeStatus: $jstatus(j) != closed
+//@   assert [bookkeeping]     before call varmq.worker.sendToNextChannel: $jstatus(j) == processing && $jackid(j) == ackId && w.curProcessing == old(w.curProcessing) + 1
+//@   assert [ackid-of-this]   before call varmq.worker.sendToNextChannel: $impl(IAcknowledgeable, queue) || ackId == ""
+
+// ---------------------------------------------------------------- the pool goroutine's body (one invocation per dispatched job)
+// Order of effects: the worker function runs (exactly once, with this job) -> status finished -> Close (acknowledges, releases the handle's
+// waiters) -> the node is given back -> the in-flight count drops -> barrier waiters are released if appropriate -> Completed+1 -> the
+// dispatcher is signalled. The signal comes after the decrement (otherwise the dispatcher may see no free slot and sleep: lost wake-up).
+//@ func worker.initPoolNode$1
+//@   props C01 C03 C05 C06 C11 C16 C17 C18
+//@   requires $deref(w) != nil && PoolOK($deref(w)) && QM($deref(w)) && $deref(w).pool.List.len < MaxUint32 && NodeFree($deref(node)) && $deref(w).metrics != nil && $deref(w).waiters != nil
+//@   requires $deref(w).workerFunc != nil && $deref(w).curProcessing >= 1 && ChanOK($deref(w).errorChan) && ChanOK($deref(w).eventLoopSignal)
+//@   requires $deref(w).Configs.minIdleWorkerRatio <= 100 && $deref(w).Configs.idleWorkerExpiryDuration >= 0 && $deref(w).concurrency * $deref(w).Configs.minIdleWorkerRatio <= MaxUint32
+//@   requires forall i int :: 0 <= i && i < len($deref(w).queues.Manager.items) ==> $lenOf($deref(w).queues.Manager.items[i]) >= 0
+//@   requires forall k int {@sumLen($deref(w).queues.Manager.items, k)} :: 0 <= k && k <= len($deref(w).queues.Manager.items) ==> @sumLen($deref(w).queues.Manager.items, k) <= MaxInt
+//@   modifies $usercalls, $jstatus, $jclosecalls, $acks, $lastAck, $chan($deref(w).errorChan), $chan($deref(w).eventLoopSignal), $deref(w).curProcessing, $broadcasts[$deref(w).waiters],
+//@            $completed($deref(w).metrics), $deref(w).$freed, $alloc, key G:$poolputs, $chan($deref(node).Value.ch), $deref(node).Value.lastUsed,
+//@            linkedlist.Node.next, linkedlist.Node.prev, $deref(w).pool.List.len, $deref(w).pool.List.$at, $deref(w).pool.List.$pos, $deref(w).pool.List.$in
+//@   ensures [ran-once]   $usercalls == old($usercalls) + 1
+//@   ensures [closed]     $jclosecalls(j) == old($jclosecalls(j)) + 1
+//@   ensures [inflight]   $deref(w).curProcessing == old($deref(w).curProcessing) - 1
+//@   ensures [completed]  $completed($deref(w).metrics) == old($completed($deref(w).metrics)) + 1
+//@   ensures [freed]      $deref(w).$freed == old($deref(w).$freed) + 1 && PoolOK($deref(w))
+//@   ensures [signalled]  $deref(w).eventLoopSignal != nil && $cap($deref(w).eventLoopSignal) >= 1 ==> $len($deref(w).eventLoopSignal) >= 1
+//@   ghost after call varmq.worker.freePoolNode: $deref(w).$freed := $deref(w).$freed + 1
+//@   assert [finished-after-run]  before call invoke.Close: $usercalls == old($usercalls) + 1 && $jstatus(j) == finished
+//@   assert [free-before-dec]     before call sync/atomic.Uint32.Add: $deref(w).$freed == old($deref(w).$freed) + 1 && $jclosecalls(j) == old($jclosecalls(j)) + 1
+//@   assert [release-after-dec]   before call varmq.worker.releaseWaiters: $deref(w).curProcessing == old($deref(w).curProcessing) - 1
+//@   assert [signal-after-dec]    before call varmq.worker.notifyToPullNextJobs: $deref(w).curProcessing == old($deref(w).curProcessing) - 1 && $deref(w).$freed == old($deref(w).$freed) + 1
+
+// ---------------------------------------------------------------- the dispatcher
+// goEventLoop$1: after every wake-up, jobs are dispatched while the worker is running, fewer than `concurrency` are in flight and jobs are
+// pending. Every dispatch decision re-reads status, in-flight count, limit and backlog (nothing is cached across a dispatch), errors are
+// reported without blocking and do not end the loop; the goroutine returns only when its signal channel is closed.
+//@ func worker.goEventLoop$1
+//@   props C02 C03 C09 C11 C12
+//@   requires signal != nil && $deref(w) != nil && PoolOK($deref(w)) && QM($deref(w)) && ChanOK($deref(w).errorChan)
+//@   requires forall i int :: 0 <= i && i < len($deref(w).queues.Manager.items) ==> $deref(w).queues.Manager.items[i] != nil
+//@   modifies $chan(signal), $open(signal), $chan($deref(w).errorChan), $deref(w).queues.Manager.roundRobinIndex, $lenOf, $deq, $deref(w).curProcessing, $jstatus, $jackid, $jqueue, $alloc,
+//@            $spawned["pool.Node.Serve"], $deref(w).$nodes, $deref(w).$dispatched, linkedlist.Node.next, linkedlist.Node.prev, $deref(w).pool.List.len, $deref(w).pool.List.$in,
+//@            key CH:sent, key CH:rcvd, key CHV:<
+//@   requires forall q ref {$lenOf(q)} :: $lenOf(q) >= 0
+//@   ensures [exit] !$open(signal)
+//@   ghost before call helpers.Manager.Len: assume forall k int {@sumLen($deref(w).queues.Manager.items, k)} :: 0 <= k && k <= len($deref(w).queues.Manager.items) ==> @sumLen($deref(w).queues.Manager.items, k) <= MaxInt
+//@   loop 1: invariant [outer] PoolOK($deref(w)) && QM($deref(w)) && ChanOK($deref(w).errorChan) && (forall q ref {$lenOf(q)} :: $lenOf(q) >= 0) && (forall i int :: 0 <= i && i < len($deref(w).queues.Manager.items) ==> $deref(w).queues.Manager.items[i] != nil)
+//@   loop 2: invariant [inner] PoolOK($deref(w)) && QM($deref(w)) && ChanOK($deref(w).errorChan) && (forall q ref {$lenOf(q)} :: $lenOf(q) >= 0) && (forall i int :: 0 <= i && i < len($deref(w).queues.Manager.items) ==> $deref(w).queues.Manager.items[i] != nil)
+//@   ghost entry: $sfresh := false
+//@   ghost entry: $cfresh := false
+//@   ghost entry: $pfresh := false
+//@   ghost after load status: $sfresh := true
+//@   ghost after load concurrency: $cfresh := true
+//@   ghost after load curProcessing: $pfresh := true
+//@   assert [guard]       before call varmq.worker.processNextJob: $deref(w).status == running && $deref(w).curProcessing < $deref(w).concurrency
+//@                          && @sumLen($deref(w).queues.Manager.items, len($deref(w).queues.Manager.items)) > 0
+//@   assert [guard-fresh] before call varmq.worker.processNextJob: $sfresh && $cfresh && $pfresh
+//@   ghost after call varmq.worker.processNextJob: $sfresh := false
+//@   ghost after call varmq.worker.processNextJob: $cfresh := false
+//@   ghost after call varmq.worker.processNextJob: $pfresh := false
